@@ -204,6 +204,14 @@ func body(s *simrt.Sim, tier string) {
 		a := c.StartAgent(ai + 1)
 		_ = a
 	}
+	// Workload variant (out of band): a piece writer of one agent is stalled
+	// inside agentstorage.(*Torrent).WritePiece — a slow disk — for 1-20 s, at a
+	// drawn scheduling point of that function (site-armed pause).
+	if (s.Tape.Variant/7)%4 == 1 {
+		a := c.Agents[tp.Draw(nAgents)]
+		s.ArmPauseAt("agentstorage.(*Torrent).WritePiece", a.Node, tp.Draw(16), time.Duration(1+tp.Draw(20))*time.Second)
+		s.Probe("pause_armed_in_write_piece")
+	}
 	// removal exactly when the last piece arrives
 	raceRemoval := tp.Chance(500)
 	// Workload variants (out of band, see simrt.Tape.Variant; variant 0 is the
